@@ -470,8 +470,6 @@ namespace F64
 def rnI (v : Int) : Int :=
   if v < 0 then -((rn53 v.natAbs : Nat) : Int) else ((rn53 v.natAbs : Nat) : Int)
 
-theorem rn53_zero : rn53 0 = 0 := by decide
-
 @[simp] theorem rnI_zero : rnI 0 = 0 := by simp [rnI, rn53_zero]
 
 theorem rnI_of_nonneg {v : Int} (h : 0 ≤ v) : rnI v = ((rn53 v.natAbs : Nat) : Int) := by
